@@ -128,6 +128,8 @@ fn emit_go(rng: &mut Rng, case: &mut Case, class: u8, allow_infinite: bool) {
             let polls = rng.log_uniform(200, 200_000);
             let want = movetime_for(case, polls);
             case.push(GK::GoClockDepth { own: want * 50 + 8_000, own_inc: 0, opp: rng.log_uniform(1, 600_000), opp_inc: 0, depth: d as u32 });
+        } else if rng.chance(1, 25) {
+            case.raw("go depth 0");
         } else {
             case.raw(format!("go depth {}", d));
         }
@@ -282,7 +284,7 @@ pub fn gen_session(prop: &str, seed: u64, profile: u8, faults: bool) -> Case {
         for t in 0..turns {
             if faults && profile == 0 && rng.chance(1, 8) {
                 // a command the engine has to refuse or ignore: no game set, no search running
-                case.raw(*rng.pick(&["go depth 1", "go movetime 50", "go infinite", "stop", "wait", "show", "ucinewgame", "isready", "go", "position startpos moves e2e5", "position startpos moves e2e4 e7e5 e1g1", "position", "position startpos moves"]));
+                case.raw(*rng.pick(&["go depth 1", "go depth 0", "go movetime 50", "go infinite", "stop", "wait", "show", "ucinewgame", "isready", "go", "position startpos moves e2e5", "position startpos moves e2e4 e7e5 e1g1", "position", "position startpos moves"]));
             }
             case.push(GK::PosCur);
             if rng.chance(1, 8) {
@@ -361,7 +363,7 @@ pub fn gen_chaos(prop: &str, seed: u64) -> Case {
         match rng.below(100) {
             0..=19 => case.push(GK::PosCur),
             20..=29 => {
-                case.raw(format!("go depth {}", rng.range(1, max_depth_for(class))));
+                case.raw(format!("go depth {}", rng.range(0, max_depth_for(class))));
                 asked = true;
             }
             30..=36 => {
@@ -696,7 +698,7 @@ pub fn gen_c07(seed: u64, thorough: bool) -> Case {
         }
         let k = if rng.chance(1, 3) { rng.below(4) } else { rng.log_uniform(1, 2_000) };
         case.push(GK::AfterPolls(k));
-        case.raw("stop");
+        case.raw(if rng.chance(1, 4) { "ucinewgame" } else { "stop" });
         case.push(GK::AwaitBest);
         case.raw("isready");
         case.push(GK::AwaitReady);
@@ -731,8 +733,10 @@ pub fn gen_c07(seed: u64, thorough: bool) -> Case {
             case.push(GK::NewGame { root: root_cmd_str(&root), pre });
             case.push(GK::PosCur);
             case.raw(if rng.chance(1, 2) { "go infinite".to_string() } else { format!("go depth {}", depth + 1) });
-            case.raw("stop");
+            case.raw(if rng.chance(1, 3) { "ucinewgame" } else { "stop" });
             case.push(GK::AwaitBest);
+            case.raw("isready");
+            case.push(GK::AwaitReady);
             case.raw("quit");
             case
         } else {
@@ -856,7 +860,7 @@ pub fn gen_c08(seed: u64, thorough: bool) -> Case {
         let mut case = Case::new("C08", "direct-large-depth-limit", seed, Mode::Direct);
         let cap = if thorough { 6_000_000 } else { 1_600_000 };
         direct_params(&mut case, cap);
-        let n = *rng.pick(&[8u8, 16, 31, 32, 33, 34, 35, 40, 63, 64, 65, 66, 100, 127, 128, 200, 254, 255]);
+        let n = *rng.pick(&[0u8, 0, 8, 16, 31, 32, 33, 34, 35, 40, 63, 64, 65, 66, 100, 127, 128, 200, 254, 255]);
         // limits beyond 40 are only reachable within the budget on bare kings
         let bare: Vec<&Root> = ROOTS.iter().filter(|r| r.name.starts_with("KvK")).collect();
         let r = if n > 40 { *rng.pick(&bare) } else { *rng.pick(&tiny) };
